@@ -627,8 +627,10 @@ func driverCheck(prop, tier string) int {
 			continue
 		}
 		nviol++
-		fmt.Printf("VIOLATION property=%s replay=%s\n", v.Viol.Prop, path)
-		fmt.Printf("  class=%s\n  %s\n", v.Viol.Class, strings.ReplaceAll(v.Viol.Msg, "\n", "\n  "))
+		// the line names the property whose check ran; the oracle that fired may
+		// belong to a neighbouring property (shared runner oracles)
+		fmt.Printf("VIOLATION property=%s replay=%s\n", prop, path)
+		fmt.Printf("  class=%s oracle=%s\n  %s\n", v.Viol.Class, v.Viol.Prop, strings.ReplaceAll(v.Viol.Msg, "\n", "\n  "))
 		exit = 1
 	}
 	// race side mode (C09, C13): free-running goroutines, binary built with -race
